@@ -501,7 +501,11 @@ func (l *Layout) Served(fileName string, off int64) (payloads [][]byte, evIdx []
 		return nil, nil, false
 	}
 	h := l.H
-	payloads = append(payloads, h.ArtificialRotateCRC(fileName, off, l.CRC[file]))
+	// The first fake ROTATE is sent before any format description was read: the dump thread
+	// frames it with the checksum algorithm the replica announced, i.e. the master's CURRENT
+	// global setting (Binlog_sender::init_checksum_alg) = the setting of the newest file, which
+	// can differ from that of the (older) file the dump starts in.
+	payloads = append(payloads, h.ArtificialRotateCRC(fileName, off, l.CRC[len(l.CRC)-1]))
 	evIdx = append(evIdx, -1)
 	fde := l.FDE[file]
 	if off > 4 {
